@@ -87,8 +87,11 @@ GPolicy == WithPolicy /\ held = {} /\
 
 (* C20: management operations thrown in concurrently (free-running mode only; they do not change
    the property-layer state that the C20 invariants look at) *)
-OpKinds == {"ListPath", "ListPeer", "WatchStart", "WatchStop", "Disable", "Enable", "DelPeer", "AddPeer"}
-GOp == Chaos /\ LET k == RandomElement(OpKinds)
+(* ResetBurst = three hard ResetPeer calls on one neighbour back to back (the second and third meet the
+   session while it is going down), drawn three times as often as the other kinds *)
+OpSeq == <<"ListPath", "ListPeer", "WatchStart", "WatchStop", "Disable", "Enable", "DelPeer", "AddPeer",
+           "ResetBurst", "ResetBurst", "ResetBurst">>
+GOp == Chaos /\ LET k == OpSeq[RandomElement(1..Len(OpSeq))]
                     q == RandomElement(Peers)
                 IN Log([ev |-> "Op", k |-> k, p |-> q]) /\ UNCHANGED <<up, inr, loc, polvars, stalled, held, gone>>
 
